@@ -100,9 +100,15 @@ class C01(core.Check):
                       ['CHDIR "AB:X"'], ['FILES ":"'], ['OUT &H3C5,1'], ['OUT &H3CF,1'], ['PRINT &O1 2'],
                       ['SCREEN 1', 'VIEW (10,10)-(50,50)', 'SCREEN 1,,0,0'], ['KEY ON', 'LOCATE 1,60', 'WIDTH 40'],
                       ['SCREEN 1', 'VIEW (100,100)-(200,150)', 'PRINT POINT(300,10)'], ['SCREEN 1', 'DRAW "C256 U5"'],
+                      ['PRINT INP(&H379)'], ['OUT &H37A,1'], ['SCREEN 1', 'DEF SEG=0', 'PRINT PEEK(1126)'],
+                      ['DEF SEG=&HF000', 'BSAVE "ROM.BIN",0,100', 'BLOAD "ROM.BIN"'], ['DEF SEG=&HB800', 'BSAVE "Y.BIN",65000,1000'],
                       ['PRINT PEEK(4073)'], ['POKE 4073,1'], ['FOR I=3900 TO 4750:X=PEEK(I):POKE I,X:NEXT'],
                       ['BSAVE "LOW.BIN",0,32767'], ['FOR X=1E38 TO 1.7E38 STEP 1E38:NEXT']):
             c.append({'k': 'prog', 'lines': lines, 'default': True})
+        # interactive histories (Session.interact): stale EDIT prompt after the line is gone (D01i), AUTO over existing lines
+        c.append({'k': 'prog', 'lines': ['10 PRINT 1 +* 2', 'RUN', 'NEW'], 'keys': ['PRINT 1'], 'default': True})
+        c.append({'k': 'prog', 'lines': ['10 PRINT 1 +* 2', 'RUN', '10 REM'], 'keys': ['PRINT 1'], 'default': True})
+        c.append({'k': 'prog', 'lines': ['10 PRINT 1', '20 PRINT 2'], 'keys': ['AUTO', 'PRINT 3', '\x03', 'RUN', 'EDIT 20', '', 'LIST'], 'default': True})
         c.append({'k': 'file', 'bytes': [0xfe], 'name': 'X'})
         c.append({'k': 'file', 'bytes': [0xfe, 0x1a], 'name': 'X'})
         c.append({'k': 'file', 'bytes': [0xff], 'name': 'X'})
@@ -168,7 +174,13 @@ class C01(core.Check):
                           'SCREEN %d' % rng.choice([0, 1, 2, 7, 9]), '10 REM walk', 'KEY ON', 'WIDTH 40', 'CLEAR ,%d' % rng.choice([2000, 8000, 30000])],
                          rng.randrange(0, 4))
         seg = rng.choice(['', '', '', '=0', '=&H40', '=&HB800', '=&HA000', '=&HB000', '=&HC000', '=&HF000', '=&HFFFF', '=%d' % rng.randrange(65536)])
-        a = rng.choice([rng.randrange(0, 65536), rng.randrange(0, 6000), rng.choice([0, 3800, 4000, 4500, 4700, 65000, 32500, 16000])])
+        if rng.random() < 0.15:
+            # machine ports: read every port of a stretch, write a value to every port of a stretch (D01f)
+            a = rng.choice([0, 0x60, 0x200, 0x270, 0x2f0, 0x370, 0x3b0, 0x3c0, 0x3d0, 0x3f0, rng.randrange(0, 65536)])
+            b = min(65535, a + rng.randrange(16, 300))
+            return pre + ['FOR I!=%d TO %d:X=INP(I!):NEXT' % (a, b), 'FOR I!=%d TO %d:OUT I!,%d:NEXT' % (a, b, rng.choice([0, 1, 255, rng.randrange(256)])),
+                          'FOR I!=%d TO %d:X=INP(I!):NEXT' % (a, b), 'PRINT "x"', 'CLOSE']
+        a = rng.choice([rng.randrange(0, 65536), rng.randrange(0, 6000), rng.choice([0, 1000, 3800, 4000, 4500, 4700, 65000, 32500, 16000])])
         n = rng.randrange(200, 700)
         b = min(65535, a + n)
         body = rng.choice(['X=PEEK(I%s)', 'X=PEEK(I%s):POKE I%s,X', 'POKE I%s,255-PEEK(I%s) AND 255']).replace('%s', '!')
@@ -177,6 +189,26 @@ class C01(core.Check):
             lines.append('BSAVE "MW.BIN",%d,%d' % (a, n))
             lines.append('BLOAD "MW.BIN"')
         return lines + ['DEF SEG', 'CLOSE']
+
+    TYPED = ['AUTO', 'AUTO 100,5', 'AUTO 10', 'EDIT 10', 'EDIT 20', 'EDIT .', '10 PRINT 1 +* 2', '20 PRINT "two"', '10', '20', 'RUN', 'NEW', 'LIST',
+             'CONT', 'KEY ON', 'KEY OFF', 'CLS', 'RENUM', 'DELETE 10', 'INPUT A$', 'LINE INPUT B$', 'PRINT INKEY$', 'A$=INPUT$(2)', 'LOCATE 24,1',
+             'LOCATE 25,70', 'WIDTH 40', 'SCREEN 1', 'SCREEN 0', 'KEY 1,"LIST"+CHR$(13)', 'ON ERROR GOTO 100', 'STOP', 'END', 'SYSTEM1',
+             '\x03', '\x1b', '\x0e', '\x05', '\x0b', '\x0c', '\x1c\x1c\x1d', '\x1e\x1e', '\x1f', '\x08\x08', '\x7f', '\x12', '\x02', '\x06',
+             '\x0a', '\x09', 'PRINT STRING$(255,"x")', 'x' * 254, '1 ' + 'x' * 250, '65529 PRINT', '65530 PRINT', '0 PRINT', '.5 PRINT']
+
+    def typed(self):
+        """lines typed at the interactive prompt (AUTO mode, EDIT prompts, editing keys, type-ahead for INPUT)"""
+        rng = self.rng
+        out = []
+        for _ in range(rng.randrange(1, 7)):
+            r = rng.random()
+            if r < 0.6:
+                out.append(rng.choice(self.TYPED))
+            elif r < 0.8:
+                out.append(self.stmt())
+            else:
+                out.append(rng.choice(self.FAULT + self.AFTER))
+        return out
 
     AFTER = ['CONT', 'RUN', 'LIST', 'PRINT ERR;ERL', 'RESUME', 'RESUME NEXT', 'EDIT 20', 'NEW', 'RENUM', 'GOTO 100', 'RETURN', 'STOP']
 
@@ -211,6 +243,10 @@ class C01(core.Check):
             elif r < 0.08:
                 out.append({'k': 'prog', 'lines': self.memwalk(), 'default': rng.random() < 0.5})
                 hist['memwalk'] = hist.get('memwalk', 0) + 1
+            elif r < 0.12:
+                pre = rng.choice([[], self.scenario(), ['10 PRINT 1 +* 2', 'RUN'], ['10 PRINT 1', '20 GOTO 10'], [self.stmt()]])
+                out.append({'k': 'prog', 'lines': pre, 'keys': self.typed(), 'default': rng.random() < 0.5})
+                hist['interactive'] = hist.get('interactive', 0) + 1
             elif r < 0.2:
                 out.append({'k': 'prog', 'lines': self.scenario(), 'default': rng.random() < 0.5})
                 hist['scenario'] = hist.get('scenario', 0) + 1
@@ -331,6 +367,9 @@ class C01(core.Check):
         kw = {} if case.get('default') else {'devices': {'C': d}, 'current_device': 'C:'}
         if case.get('video'):
             kw['video'] = case['video']
+        if case.get('keys'):
+            import io
+            kw['input_streams'] = io.BytesIO(b''.join(k.encode('latin1', 'replace') + b'\r' for k in case['keys']))
         s = common.new_session(**kw)
         self._ran_ok = 0
         try:
@@ -360,6 +399,22 @@ class C01(core.Check):
                     sig = '%s@%s:%d' % (type(x).__name__, os.path.basename(tb.filename), tb.lineno)
                     h = int(hashlib.sha1(sig.encode()).hexdigest()[:6], 16)
                     self.__dict__.setdefault('_sigs', {})[h] = sig + ' ' + str(x)[:100] + ' at statement ' + repr(l)
+                    return [2, h]
+            if case.get('keys'):
+                # interactive phase: the remaining lines are typed at the prompt (Session.interact until the input runs out)
+                try:
+                    with core.time_limit(10):
+                        s.interact()
+                    self._ran_ok += 1
+                except TimeoutError:
+                    pass
+                except (error.Exit, error.Break, error.Reset, error.BASICError):
+                    pass
+                except BaseException as x:
+                    tb = traceback.extract_tb(x.__traceback__)[-1]
+                    sig = '%s@%s:%d' % (type(x).__name__, os.path.basename(tb.filename), tb.lineno)
+                    h = int(hashlib.sha1(sig.encode()).hexdigest()[:6], 16)
+                    self.__dict__.setdefault('_sigs', {})[h] = sig + ' ' + str(x)[:100] + ' in Session.interact typing ' + repr(case['keys'])
                     return [2, h]
             return [0]
         finally:
